@@ -478,7 +478,9 @@ inline Result inspect(const uint8_t *data, size_t n, const Options &opt = Option
           try {
             read_block(br, S.level, B, out, opt);
           } catch (Fail &) {
-            if (out) out->resize(keep);
+            // lenient mode keeps what the run-length stage had produced when the block failed: a decoder that
+            // streams its output has written those bytes before it can know that the block is bad
+            if (out && !opt.lenient_crc) out->resize(keep);
             R.incomplete_used |= B.incomplete_used;
             R.oversub_used |= B.oversub_used;
             throw;
